@@ -10,7 +10,7 @@ cp oxmpl/tests/seeded_demo.rs $out/seeded_demo.rs 2>/dev/null
 [ -s $out/patch.diff ] || { echo "empty patch"; exit 1; }
 F=""; [ -n "$feat" ] && F="--features $feat"
 echo "== demo WITH change (expect FAIL)"
-cargo test -p oxmpl --test seeded_demo --offline $F 2>&1 | grep -E "^test result|panicked" | head -3 > $out/demo_with.txt; cat $out/demo_with.txt
+cargo test -p oxmpl --test seeded_demo --offline $F 2>&1 | grep -E "^test result|panicked" | tail -4 > $out/demo_with.txt; cat $out/demo_with.txt
 echo "== existing suite WITH change (expect pass; seeded_demo excluded)"
 mv oxmpl/tests/seeded_demo.rs /tmp/seeded_demo_$id.rs
 cargo test --workspace --no-fail-fast --offline 2>&1 | grep -E "^test result|FAILED|failed" > $out/suite_with.txt
@@ -18,5 +18,5 @@ mv /tmp/seeded_demo_$id.rs oxmpl/tests/seeded_demo.rs
 echo "ok-lines: $(grep -c 'test result: ok' $out/suite_with.txt)  failed-lines: $(grep -vc 'test result: ok' $out/suite_with.txt)"; grep -v 'test result: ok' $out/suite_with.txt | head -5
 echo "== demo WITHOUT change (expect pass)"
 git stash -q -- oxmpl/src oxmpl-py/src
-cargo test -p oxmpl --test seeded_demo --offline $F 2>&1 | grep -E "^test result|panicked" | head -3 > $out/demo_without.txt; cat $out/demo_without.txt
+cargo test -p oxmpl --test seeded_demo --offline $F 2>&1 | grep -E "^test result|panicked" | tail -4 > $out/demo_without.txt; cat $out/demo_without.txt
 git stash pop -q
